@@ -84,6 +84,22 @@ const OFFENDERS: &[(&str, &str)] = &[
     ("too few arguments", "fn nf_(a, ..r) {\nreturn a\n}\nq_ := 1 + \u{1}nf_()\n"),
     ("redeclaration", "z_ := 1\n\u{1}z_ := 2\n"),
     ("redeclaration by fn", "z_ := 1\nfn \u{1}z_() {\n}\n"),
+    ("overflow of a variable and a literal", "w_ := 9223372036854775807\nq_ := w_ \u{1}+ 1\n"),
+    ("overflow of a literal and a variable", "w_ := 9223372036854775807\nq_ := 1 \u{1}+ w_\n"),
+    ("overflow of two variables", "w_ := 9223372036854775807\nv_ := 2\nq_ := 1 + w_ \u{1}* v_\n"),
+    ("underflow of a variable and a literal", "w_ := -9223372036854775807\nq_ := w_ \u{1}- 2\n"),
+    ("type error of a variable and a literal", "w_ := 1\nq_ := w_ \u{1}+ \"a\"\n"),
+    ("type error of an element and a literal", "w_ := [1]\nq_ := w_[0] \u{1}* \"a\"\n"),
+    ("type error of a call and a property", "w_ := {\"k\": \"s\"}\nfn one_() {\nreturn 1\n}\nq_ := one_() \u{1}- w_.k\n"),
+    ("zero divisor held by a variable", "w_ := 0\nq_ := 5 \u{1}/ w_\n"),
+    ("zero divisor of a variable", "w_ := 5\nq_ := w_ \u{1}% 0\n"),
+    ("undefined name indexing a list variable", "w_ := [1]\nq_ := w_[\u{1}y_]\n"),
+    ("undefined name indexing a string variable", "w_ := \"s\"\nq_ := w_[\u{1}y_]\n"),
+    ("undefined name as a key of an object variable", "w_ := {}\nq_ := w_[\u{1}y_]\n"),
+    ("undefined list variable indexed by a variable", "v_ := 0\nq_ := \u{1}y_[v_]\n"),
+    ("undefined name as an argument of a variable callee", "fn one_(a) {\nreturn a\n}\nq_ := one_(\u{1}y_)\n"),
+    ("undefined name after a four-byte character in a string on the line", "w_ := \"🎉\"; q_ := \u{1}y_\n"),
+    ("undefined name after four-byte characters in a comment above and a string on the line", "# 🎉🎉\nw_ := [\"a🎉b\", \"🎉\"]; q_ := w_[0] + \u{1}y_\n"),
     ("missing property named by a pair pattern", "{\u{1}\"k\": p_} := {}\n"),
     ("missing property named by a shorthand pattern", "{\u{1}p_} := {}\n"),
     ("missing property named by the second entry of a pattern", "{\"a\": p_, \u{1}\"k\": [q_, r_]} := {\"a\": 1}\n"),
